@@ -6,7 +6,9 @@ package c17
 
 import (
 	"fmt"
+	"go/token"
 	"go/types"
+	"math/big"
 	"sort"
 	"strings"
 
@@ -19,6 +21,7 @@ import (
 type Session struct {
 	k       *checker
 	setters map[types.Object]bool
+	contra  map[[2]string]bool
 }
 
 // NewSession resolves modeling.Mesh's attribute setters; "" problem means usable.
@@ -381,3 +384,241 @@ func (s *Session) IsSymbol(a Scalar, d SymDesc) bool {
 
 // SymbolScalar is the scalar consisting of the symbol d.
 func (s *Session) SymbolScalar(d SymDesc) Scalar { return s.k.e.symScalar(d.id) }
+
+// ---------------------------------------------------------------- exports used by C19 (closed forms of closures)
+
+func (a Atom) Key() string    { return a.key }
+func (a Atom) NegKey() string { return a.neg }
+
+// Const reports whether the boolean is a constant and its value.
+func (b BoolV) Const() (isConst, val bool) { return b.isConst, b.c }
+
+// Atom is the canonical atom of a non-constant boolean.
+func (b BoolV) Atom() Atom { return b.atom }
+
+// RunThen runs the constructor fn on args and applies the function value it returns to then.
+func (s *Session) RunThen(fn *ssa.Function, args []Val, then []Val) *Result {
+	return s.k.e.RunThen(fn, args, then)
+}
+
+// AppOf decomposes a scalar that is exactly one uninterpreted application.
+func (s *Session) AppOf(a Scalar) (op string, args []Scalar, ok bool) {
+	id, single := singleSym(a.v)
+	if !single {
+		return "", nil, false
+	}
+	ai := s.k.e.apps[id]
+	if ai == nil {
+		return "", nil, false
+	}
+	out := make([]Scalar, len(ai.args))
+	for i, r := range ai.args {
+		out[i] = Scalar{v: r}
+	}
+	return ai.op, out, true
+}
+
+// Apply is the value of calling the uninterpreted function value named fnKey on scalar arguments,
+// exactly as the engine names such a call (fnKey: parameter name, or elem(slice)[idx]).
+func (s *Session) Apply(fnKey string, args []Scalar) Scalar {
+	return s.k.e.app("call:dyn:"+fnKey, args)
+}
+
+// Key is the canonical rendering of a scalar.
+func (s *Session) Key(a Scalar) string { return rfKey(a.v, s.k.e.ST) }
+
+// DepNames lists the input symbols a was computed from (dataflow, cancellation ignored).
+func (s *Session) DepNames(a Scalar) []string { return depNames(a.deps, s.k.e.ST) }
+
+// LenOf returns the symbolic length of a slice value.
+func LenOf(v Val) (Scalar, bool) {
+	so, ok := v.(*SliceObj)
+	if !ok {
+		return Scalar{}, false
+	}
+	return so.ln, true
+}
+
+// SliceID returns the object id of a slice value.
+func SliceID(v Val) string {
+	if so, ok := v.(*SliceObj); ok {
+		return so.id
+	}
+	return ""
+}
+
+// Induction describes the counter of the loop an iteration path belongs to.
+type Induction struct {
+	First     Scalar // first index visited
+	Step      int64
+	Guard     string // the condition under which the body is entered
+	GuardOK   bool   // Guard is exactly idx < bound (ascending) / idx >= 0 (descending from bound-1)
+	EarlyExit bool
+}
+
+// IndexFromKey rebuilds the index scalar (loop counter + {-1,0,1}) whose canonical key is key.
+func (s *Session) IndexFromKey(p *Path, key string) (Scalar, bool) {
+	if p == nil || p.Iter == nil || p.Iter.Entry == nil {
+		return Scalar{}, false
+	}
+	e := s.k.e
+	for _, hv := range p.Iter.Entry.Havoc {
+		if hs, ok := hv.(Scalar); ok {
+			for _, c := range []int64{0, 1, -1} {
+				cand := e.Add(hs, e.num(c))
+				if rfKey(cand.v, e.ST) == key {
+					return cand, true
+				}
+			}
+		}
+	}
+	return Scalar{}, false
+}
+
+// InductionOf analyses the counter behind idx on the iteration path p of res.
+func (s *Session) InductionOf(res *Result, p *Path, idx, bound Scalar) (Induction, string) {
+	e := s.k.e
+	var ind Induction
+	if p == nil || p.Iter == nil || p.Iter.Entry == nil {
+		return ind, "not an iteration path"
+	}
+	ent := p.Iter.Entry
+	phiI := -1
+	var c Scalar
+	for i, hv := range ent.Havoc {
+		hs, ok := hv.(Scalar)
+		if !ok {
+			continue
+		}
+		d := e.Sub(idx, hs)
+		if _, isC := d.v.Const(); isC {
+			phiI, c = i, d
+		}
+	}
+	if phiI < 0 {
+		return ind, "the index " + rfKey(idx.v, e.ST) + " is not (loop counter + constant)"
+	}
+	init, ok1 := ent.Init[phiI].(Scalar)
+	next, ok2 := p.Iter.Next[phiI].(Scalar)
+	if !ok1 || !ok2 {
+		return ind, "the loop counter is not a scalar"
+	}
+	step := e.Sub(next, ent.Havoc[phiI].(Scalar))
+	sc, isC := step.v.Const()
+	if !isC || !sc.IsInt() {
+		return ind, "the loop counter advances by " + rfKey(step.v, e.ST)
+	}
+	ind.Step = sc.Num().Int64()
+	ind.First = e.Add(init, c)
+	if ent.CondIndex < len(p.Conds) {
+		got := p.Conds[ent.CondIndex]
+		ind.Guard = got.key
+		var want BoolV
+		if ind.Step > 0 {
+			want = e.CmpAtom(token.LSS, idx, bound)
+		} else {
+			want = e.CmpAtom(token.GEQ, idx, e.num(0))
+		}
+		ind.GuardOK = !want.isConst && want.atom.key == got.key
+	}
+	for _, q := range res.Paths {
+		for _, ex := range q.LoopExits {
+			if ex.Entry.ID == ent.ID && ex.From != ex.Entry.Header {
+				ind.EarlyExit = true
+			}
+		}
+	}
+	return ind, ""
+}
+
+// IterationPaths returns the paths of res that end at the back edge of loop id.
+func IterationPaths(res *Result, id string) []*Path {
+	var out []*Path
+	for _, p := range res.Paths {
+		if p.Kind == EndLoopBack && p.Iter != nil && p.Iter.Entry != nil && p.Iter.Entry.ID == id {
+			out = append(out, p)
+		}
+	}
+	return out
+}
+
+// Contradict: can the two inequality atoms never hold together? Decided only in the simple
+// case that a positive combination P + λQ is a negative constant, minus a polynomial the
+// client assumed positive, or identically zero with one side strict.
+func (s *Session) Contradict(a, b Atom) bool {
+	if a.key == b.neg || b.key == a.neg {
+		return true
+	}
+	if a.p == nil || b.p == nil {
+		return false
+	}
+	if s.contra == nil {
+		s.contra = map[[2]string]bool{}
+	}
+	mk := [2]string{a.key, b.key}
+	if v, ok := s.contra[mk]; ok {
+		return v
+	}
+	v := s.contradict(a, b)
+	s.contra[mk] = v
+	s.contra[[2]string{b.key, a.key}] = v
+	return v
+}
+
+func (s *Session) contradict(a, b Atom) bool {
+	e := s.k.e
+	// P + λQ can only collapse to (minus) an assumed-positive polynomial or a constant if the
+	// two polynomials have nearly the same terms
+	maxPos := 1
+	for _, p := range e.positive {
+		if len(p.t) > maxPos {
+			maxPos = len(p.t)
+		}
+	}
+	if d := len(a.p.t) - len(b.p.t); d > maxPos+1 || -d > maxPos+1 {
+		return false
+	}
+	// choose λ from a monomial that occurs in both with opposite signs
+	tried := 0
+	for k, ta := range a.p.t {
+		tb, ok := b.p.t[k]
+		if !ok || ta.c.Sign()*tb.c.Sign() >= 0 {
+			continue
+		}
+		tried++
+		if tried > 2 {
+			break
+		}
+		lambda := new(big.Rat).Neg(new(big.Rat).Quo(ta.c, tb.c))
+		r := a.p.Add(b.p.Scale(lambda))
+		if r.IsZero() {
+			if a.strict || b.strict {
+				return true
+			}
+			continue
+		}
+		if c, isC := r.Const(); isC {
+			if c.Sign() < 0 {
+				return true
+			}
+			continue
+		}
+		if e.positiveDen(r.Neg()) {
+			return true
+		}
+	}
+	return false
+}
+
+// IsMaxFloat: is a the constant sign·math.MaxFloat64?
+func (s *Session) IsMaxFloat(a Scalar, sign int64) bool {
+	c, ok := a.v.Const()
+	if !ok {
+		return false
+	}
+	mf, _ := new(big.Rat).SetString("179769313486231570814527423731704356798070567525844996598917476803157260780028538760589558632766878171540458953514382464234321326889464182768467546703537516986049910576551282076245490090389328944075868508455133942304583236903222948165808559332123348274797826204144723168738177180919299881250404026184124858368")
+	if sign < 0 {
+		mf.Neg(mf)
+	}
+	return c.Cmp(mf) == 0
+}
